@@ -8,6 +8,7 @@ import Drpc.Tie.Expected
   bits of one word — which is what licenses modelling the status word as the pair (errSet, chCreated)
   that is always loaded and stored as a whole.
 -/
+set_option maxRecDepth 100000
 namespace Drpc.Tie.C19
 open Drpc
 
